@@ -8,8 +8,9 @@ blocks, parameters assigned at the call site, `return` replaced by an assignment
 to its target).  Inlining preserves semantics, so an obligation discharged on the inlined form holds for the program.
 The runner uses this form only as a second view, when a rule does not go through on the program as written.
 
-What is never inlined: functions reachable from the public API, trait methods, predicates (fns returning bool: they are
-summarised, not inlined), recursive calls, the anchors passed in `opaque`, and anything larger than MAX_BLOCKS.
+What is never inlined: functions reachable from the public API (except a sibling method that a method merely delegates
+to), trait methods, recursive calls, the anchors passed in `opaque` (the functions the rules identify by role, among
+them the validity predicates), and anything larger than MAX_BLOCKS.
 """
 import copy
 
@@ -36,8 +37,6 @@ def inlinable(facts, k, opaque, caller=None):
         if not (cf and f.get("impl_self") and f.get("impl_self") == cf.get("impl_self") and "impl_trait" not in f and "impl_trait" not in cf and len(b["blocks"]) <= 12 and not _has_loop(b)):
             return False
     if "impl_trait" in f or f.get("impl_trait_def"):
-        return False
-    if f.get("output") == "bool":
         return False
     return True
 
